@@ -182,6 +182,11 @@ fn main() {
                     let n = 900 + rng.below(300) as usize;
                     b = rng.bytes(n);
                 }
+                if rng.chance(1, 6) {
+                    // false-positive readiness before the datagram arrives
+                    sock.spurious_readable();
+                    settle().await;
+                }
                 sock.deliver(&b, from);
                 settle().await;
                 let sent = sock.sent();
